@@ -36,15 +36,21 @@ ASSUMPTIONS = [
     'embedded document, sorts in which some but not all key comparisons raise (which of them '
     'timsort performs is not modelled), paths with empty components or negative indexes',
     'scope limits (inside F, nothing claimed, python compared with the model only): sort keys '
-    'reaching embedded documents, negative skip, negative $skip/$limit, `$`-prefixed sort keys '
+    'reaching embedded documents or arrays inside arrays, negative skip, negative $skip/$limit, '
+    '`$`-prefixed sort keys '
     'other than a lone $natural, count_documents limits that are not positive numbers',
+    'ObjectIds under a sort key are ids the case supplies (wire.Oids: number n has value n, so '
+    'they are ordered like their numbers); the value of an ObjectId the library generates is not '
+    'modelled, so neither is its place in a sort (model answers "unmodelled")',
     'a cursor is configured completely before its first iteration (reconfiguration after '
     'iteration started is not modelled); rewind() and clone() are checked directly',
     'error classes are not compared for C11 (only raised / did not raise)',
 ]
 
-FINDING_CLASSES = {'arraykey', 'objectid', 'emptyslice'}
-SCOPE_CLASSES = {'dockey', 'awaredate', 'badpath', 'dollarkey', 'negskip', 'negstage', 'badlimit'}
+# no known finding is left: emptyslice, objectid and arraykey were repaired in the library
+FINDING_CLASSES = set()
+SCOPE_CLASSES = {'dockey', 'awaredate', 'badpath', 'dollarkey', 'negskip', 'negstage', 'badlimit',
+                 'genoid', 'nestedarray'}
 
 DATES = [_dt.datetime(2020, 1, 1), _dt.datetime(1969, 12, 31, 23, 59, 59, 999000)]
 D_ALPHABET = [None, None, True, False, 0, 1, 2, -1, 0.5, 1.0, 2.0, '', 'a', 'b', 'B',
@@ -61,7 +67,8 @@ class G(object):
         self.oids = wire.Oids()
 
     def f_value(self):
-        """values outside D: arrays, ObjectIds, embedded documents"""
+        """arrays (inside D when their items are), ObjectIds, and values outside D: embedded
+        documents, nested arrays"""
         r = self.r
         x = r.random()
         if x < 0.45:
@@ -83,6 +90,10 @@ class G(object):
         for f in FIELDS:
             k = r.choice([1, 2, 2, 3, 3, 4, 5])
             vals = [copy.deepcopy(r.choice(D_ALPHABET)) for _ in range(k)]
+            if r.random() < 0.2:
+                # supplied ObjectIds are inside D: ordered by value, between arrays and booleans
+                for _ in range(r.choice([1, 2, 2])):
+                    vals.append(self.oids.make(r.randrange(3)))
             if profile == 'F' and r.random() < 0.7:
                 for _ in range(r.choice([1, 2])):
                     vals.append(self.f_value())
@@ -404,32 +415,76 @@ def o_class(v):
         if v.tzinfo is not None:
             raise Outside('awaredate')
         return 10
+    if isinstance(v, ObjectId):
+        return 8
     raise Outside(type(v).__name__)
 
 
-def o_key(doc, path):
-    cur = doc
-    for comp in path.split('.'):
-        if comp == '':
-            raise Outside('badpath')
-        if isinstance(cur, dict):
-            if comp not in cur:
-                return (2, 0)
-            cur = cur[comp]
-        elif isinstance(cur, list):
-            raise Outside('arraykey')
+O_MISSING = object()
+
+
+def o_reach(cur, comps):
+    """the values the path reaches, branching through arrays of sub-documents (MISSING where a
+    sub-document lacks the field or the path dead-ends on a scalar)"""
+    if not comps:
+        return [cur]
+    comp = comps[0]
+    if comp == '':
+        raise Outside('badpath')
+    if isinstance(cur, dict):
+        if comp not in cur:
+            return [O_MISSING]
+        return o_reach(cur[comp], comps[1:])
+    if isinstance(cur, list):
+        if comp.lstrip('-').isdigit():
+            raise Outside('arrayindex')      # positional paths: left to the Lean oracle
+        out = []
+        for item in cur:
+            if not isinstance(item, dict):
+                raise Outside('scalar-in-array')   # what such an item contributes: not stated
+            out.extend(o_reach(item, comps))
+        return out
+    return [O_MISSING]               # the path dead-ends: missing, sorts as null
+
+
+def o_scalar_key(v):
+    c = o_class(v)
+    if c == 8:
+        # an ObjectId is ordered by its bytes: the fixed-width lower-case hex string says the same
+        return (1, c, str(v))
+    return (1, c, 0 if c == 2 else v)
+
+
+def o_key(doc, path, desc=False):
+    """the sort key of a document: (rank, class, value) — a missing field is null; an array
+    stands for its items, the smallest of them for an ascending key, the largest for a
+    descending one; an empty array sorts before everything"""
+    keys = []
+    for v in o_reach(doc, path.split('.')):
+        if v is O_MISSING:
+            keys.append((1, 2, 0))
+        elif isinstance(v, list):
+            if not v:
+                keys.append((0, 2, 0))
+            keys.extend(o_scalar_key(x) for x in v)
         else:
-            return (2, 0)           # the path dead-ends: missing, sorts as null
-    c = o_class(cur)
-    return (c, 0 if c == 2 else cur)
+            keys.append(o_scalar_key(v))
+    if not keys:
+        return (1, 2, 0)
+    best = keys[0]
+    for k in keys[1:]:
+        c = o_cmp(k, best)
+        if (c > 0) if desc else (c < 0):
+            best = k
+    return best
 
 
 def o_cmp(x, y):
-    if x[0] != y[0]:
-        return -1 if x[0] < y[0] else 1
-    if x[1] < y[1]:
+    if x[:2] != y[:2]:
+        return -1 if x[:2] < y[:2] else 1
+    if x[2] < y[2]:
         return -1
-    if y[1] < x[1]:
+    if y[2] < x[2]:
         return 1
     return 0
 
@@ -442,7 +497,7 @@ def o_sorted(docs, spec):
         return list(reversed(docs)) if spec[0][1] < 0 else list(docs)
     if any(k.startswith('$') for k, _ in spec):
         raise Outside('dollarkey')
-    keyed = [([o_key(d, k) for k, _ in spec], d) for d in docs]
+    keyed = [([o_key(d, k, direction < 0) for k, direction in spec], d) for d in docs]
 
     def cmp(a, b):
         for (ka, kb, (_, direction)) in zip(a[0], b[0], spec):
@@ -506,11 +561,11 @@ def first_key_stats(selected, sort):
     if not sort or sort[0][0].startswith('$'):
         return 0, False
     try:
-        ks = [o_key(d, sort[0][0]) for d in selected]
+        ks = [o_key(d, sort[0][0], sort[0][1] < 0) for d in selected]
     except Outside:
         return 0, False
     tie = any(o_cmp(ks[i], ks[j]) == 0 for i in range(len(ks)) for j in range(i))
-    return len({k[0] for k in ks}), tie
+    return len({k[:2] for k in ks}), tie
 
 
 # ------------------------------------------------------------------------------------------
@@ -816,6 +871,11 @@ def corpus_lines():
     out = []
     for p in sorted(glob.glob(os.path.join(common.VERIF, 'corpus', 'C11', '*.json'))):
         out.append(json.load(open(p))['line'])
+    # the witnesses of repaired defects stay in the corpus: they are judged like any other case
+    # (inside D now), so the defect coming back is a VIOLATION
+    for e in common.load_known('C11'):
+        if e.get('status') == 'fixed' and e.get('witness', {}).get('line'):
+            out.append(e['witness']['line'])
     return out
 
 
